@@ -45,6 +45,8 @@ def enum_cases(ctx):
 
 PAIRS_PER_DOC = 200         # thorough tier: class pairs tried on one document (stratified sample, see class_pairs)
 LEAF_CAP = {'quick': 10, 'thorough': 40}
+UNIT_FAULTS = ('offset_units', 'undefined_units_reference', 'unit_cycle', 'duplicate_units')
+UNIT_CAP = {'quick': 5, 'thorough': 12}
 FAULT_CLASSES = ['bad_lhs', 'bare_component', 'both_receivers', 'both_sources', 'builtin_override', 'cyclic_encapsulation',
                  'definition_through_connection', 'duplicate_component', 'duplicate_units', 'incompatible_units',
                  'initial_value_and_equation', 'missing_component', 'missing_variable', 'no_direction_source',
@@ -76,6 +78,12 @@ def doc_cases(seed, tier, index, pairs):
     rest = [s for s in sites if s[0] not in LEAF_FAULTS]
     if len(leaf) > LEAF_CAP[tier]:
         leaf = rng.sample(leaf, LEAF_CAP[tier])
+    # the documents declare ~45 <units>; the per-definition unit faults are sampled (every class keeps UNIT_CAP sites)
+    for cls in UNIT_FAULTS:
+        mine = [x for x in rest if x[0] == cls]
+        if len(mine) > UNIT_CAP[tier]:
+            keep = rng.sample(mine, UNIT_CAP[tier])
+            rest = [x for x in rest if x[0] != cls or x in keep]
     singles = []
     for f in rest + leaf:
         fd = G.apply_fault(doc, f)
